@@ -68,6 +68,19 @@ PROPS = {
   "rule": "every image of the viso runs is built again after a delay and concurrently from two goroutines and compared masked (volume timestamps, PS3 filler) with the first; the model is built with clock 0 and empty filler, so any other time/randomness dependence shows as a model mismatch",
   "assumptions": ["directory enumeration order of an unchanged directory is stable (OS)"],
  },
+ "C10": {
+  "props_modules": ["Ps3.Props.C10"],
+  "streams": [{"name": "c10", "bad_obs": BAD_OBS}],
+  "rule": "encrypted images (8..1100 sectors, also not a whole number of sectors) with random disc keys and region tables: 2..6 or 255 regions, adjacent regions, gap from sector 1, gap up to the last sector, regions/gaps beyond the file, and invalid tables (one region, first not at 0, overlapping, empty); served from PS3ISO with a .dkey (4 spellings); 12 READ_FILE/READ_FILE_CRITICAL per image at region/sector/table borders +-{1,15,16,17,1000,2047,2048} with lengths 0..70000; oracle = reference decryptor on crypto/aes written from the format description",
+  "assumptions": ["AES-128 itself is not verified: theorems are parametric in the sector cipher D; the executable AES of Base/Aes.lean (FIPS-197/SP800-38A vectors checked at build) is tied to crypto/aes by the differential",
+                  "partial trailing sector of a truncated image is left as stored (cannot be decrypted)"] + _CONN_ASSUME,
+ },
+ "C11": {
+  "props_modules": ["Ps3.Props.C11"],
+  "streams": [{"name": "c11", "bad_obs": BAD_OBS}],
+  "rule": "the product {PS3ISO,ps3iso,Ps3IsO,GAMES,PS3ISO2} x {.iso,.ISO,.IsO,.bin,.iso.bak,none} x {no key, adjacent, REDKEY, both (different keys), malformed adjacent (+valid REDKEY), malformed REDKEY, short adjacent, directory as key file} x {no, encrypted, decrypted watermark} x lengths {0x1000,0x106f,0x1070,0x1071,0x3000,0x8800} (4320 layouts, nested or not) x 11 reads overlapping 0xF70..0x1070; quick samples 12%, thorough enumerates all; oracle = the harness's own decision table + reference transformation",
+  "assumptions": ["'any case' = Go strings.ToLower equality"] + _CONN_ASSUME,
+ },
  "C14": {
   "props_modules": ["Ps3.Props.C14"],
   "streams": [{"name": "c14"}],
@@ -105,6 +118,10 @@ LEVEL_TEXT = {
         "Tie: op sequences at structural boundaries against the library view; WF evaluated per explored image.",
  "C18": "Theorems: layout (files, sizes, pad area, total) is a function of tree and mode only; a descriptor depends on the clock only through its two 17-byte timestamp fields; the system area depends on the random filler only through its 0x1C0-byte field (not at all without PS3 mode); everything else in the metadata is a function of the layout. "
         "Tie: every image is built again later and concurrently and compared masked.",
+ "C10": "Theorems, parametric in the sector cipher: for every table, content, offset and length the view's read equals the slice of the one reference plaintext (sector rule: stored outside gaps, D(stored) for complete sectors in gaps), so any Read/Seek/ReadAt/chunking observes the same bytes; tables are accepted iff 2..255 regions, first at 0, each non-empty, starts not before previous ends; short/huge tables rejected; header clearing zeroes exactly the table. "
+        "Tie: differential incl. unaligned reads against a crypto/aes reference decryptor; the Lean AES instance is validated by it.",
+ "C11": "Theorems on the FS.OpenFile decision chain: no key lookup unless .iso (any case) below ps3iso (any case); adjacent key wins, REDKEY only as fallback, a malformed/unreadable key fails the open (no fallback); watermark test incl. short files; the 3k3y mask zeroes exactly [0xF70,0x1070) for any read range (pointwise); everything else, directories and write opens get no wrapper. "
+        "Tie: the full product of layouts (exhaustive in thorough) against an independent decision table.",
  "C14": "Kernel-checked theorems over the Lean model of ParseIPRange/Contains: byte-wise comparison is numeric comparison, membership is exactly "
         "'between the bounds' for every 16-byte address, IPv4 and IPv4-mapped forms are treated alike, reversed / mixed-family / malformed bounds are rejected. "
         "The model (incl. Go's address and integer parsing) is tied to the code by a differential run over generated specifications and probe addresses, "
